@@ -242,8 +242,22 @@ class Resolver:
                 return ("overflow", e)
             if e[0] == "agg" and e[1] == "tuple" and name.isdigit() and int(name) < len(e[4]):
                 return e[4][int(name)]
+            if e[0] == "agg" and e[1] == "adt" and e[2] == "std::ops::ControlFlow" and name == "0" and len(e[4]) == 1:
+                return e[4][0]
+            if e[0] == "phi" and all(a[0] == "agg" and a[1] == "tuple" and name.isdigit() and int(name) < len(a[4]) for a in e[1]):
+                # the same component of every alternative tuple (a helper returning a tuple from several places)
+                parts = []
+                for a in e[1]:
+                    if a[4][int(name)] not in parts:
+                        parts.append(a[4][int(name)])
+                return parts[0] if len(parts) == 1 else ("phi", tuple(parts))
             return ("field", e, name)
         if k == "downcast":
+            if p["variant"] == "Continue" and e[0] == "call" and e[1].endswith("::branch") and e[2]:
+                # `helper(..)?` seen through an inlined helper: on the Continue edge the operand was one of its Ok(..) values
+                pay = _ok_payloads(e[2][0])
+                if pay:
+                    return ("agg", "adt", "std::ops::ControlFlow", "Continue", (pay[0] if len(pay) == 1 else ("phi", tuple(pay)),))
             return ("downcast", e, p["variant"])
         if k == "index":
             return ("index", e, self.local(p["l"], at, depth + 1, stack))
@@ -258,6 +272,26 @@ class Resolver:
         if pb is None:
             return None
         return eval_promoted(self.F, pb)
+
+
+def _ok_payloads(x):
+    """payloads of the Result::Ok aggregates among the alternatives of x, or None when some alternative is neither an Ok/Err
+    aggregate nor a from_residual call (i.e. x is not wholly a locally constructed Result)"""
+    x = strip(x)
+    al = list(x[1]) if x[0] == "phi" else [x]
+    out = []
+    for a in al:
+        a = strip(a)
+        if a[0] == "agg" and a[1] == "adt" and a[2] == "std::result::Result" and a[3] == "Ok" and len(a[4]) == 1:
+            if a[4][0] not in out:
+                out.append(a[4][0])
+        elif a[0] == "agg" and a[1] == "adt" and a[2] == "std::result::Result" and a[3] == "Err":
+            continue
+        elif a[0] == "call" and a[1].endswith("::from_residual"):
+            continue
+        else:
+            return None
+    return out or None
 
 
 def eval_promoted(F, pb):
